@@ -30,6 +30,11 @@ CHECKS['C16'] = dict(
     note='Trusted: rustc MIR dump, vf.engine, Base64::decode contract, z3. serde name tables and socket binding are outside. Listed known finding: lenient key length (blocked by a repository test).',
     technique='MIR symbolic execution to z3 (finite-domain tables and key-length logic)', design='DESIGN.md section 2, C16')
 
+CHECKS['C12'] = dict(
+    text='Nonce discipline of the real code: IncreasingNonceGenerator::generate is exactly +1 on the 96-bit little-endian counter from every state (init starts one step before 0); CountingNonceGenerator writes the big-endian 16-bit counter over bytes 0-1 of whatever buffer it is given, leaves the rest, advances by one; both Authenticators make exactly one AEAD call per operation and hand the cipher the freshly advanced nonce (also on the failure path); the UDP packet id advance cannot wrap; decoding a reply leaves the sending counters untouched; the VMess authenticated-length cipher key is the kdf16(.."auth_len") derivation, never the body key.',
+    note='Trusted: rustc MIR dump, vf.engine, crypto contracts that log the nonce each AEAD call receives, provenance-tagged key derivations (idealised KDF), z3. Randomness quality is outside.',
+    technique='MIR symbolic execution to z3 (generator arithmetic as bit-vector identities; logged AEAD nonces)', design='DESIGN.md section 2, C12')
+
 NOT_APPLICABLE = {
  'C08': 'property is about long-lived async accept/select! loops under injected socket/TLS/DNS faults; no synchronous core that symbolic execution of MIR or Kani can reach (tokio runtime, epoll, FFI)',
  'C09': 'quantifies over thread interleavings of shared state; Kani has no thread model and Engine M is sequential',
